@@ -259,6 +259,49 @@ def run(ctx: Ctx) -> None:
                     return nm
         return None
 
+    # ---- frozen layers (fine-tune-the-head set-up): the re-initialisation happens "in the returned copy" - the original
+    #      module, frozen parameters included, is what it was, and shares no storage with the copy
+    class FrozenNet(nn.Module):
+        def __init__(self) -> None:
+            super().__init__()
+            self.tok = nn.Embedding(11, 8)
+            self.l1 = nn.Linear(8, 8)
+            self.l2 = nn.Linear(8, 4)
+
+        def forward(self, idx):  # type: ignore[no-untyped-def]
+            h = self.tok(idx)
+            return self.l2(h + torch.nn.functional.gelu(self.l1(h)))
+
+    for frozen in (["tok"], ["l1"], ["tok", "l1"], []):
+        key = {"path": "dynamo", "module": "Embedding + residual Linear + Linear", "frozen": frozen}
+        ctx.count(key, bucket="dynamo/frozen")
+        torch.manual_seed(77)
+        net = FrozenNet()
+        for nm_ in frozen:
+            for p_ in getattr(net, nm_).parameters():
+                p_.requires_grad_(False)
+        idx_ = torch.randint(0, 11, (3, 5))
+        sd0 = {k: v.detach().clone() for k, v in net.state_dict().items()}
+        y0 = net(idx_).detach().clone()
+        um = None
+        with ctx.guard("C16:unit_scale", key):
+            um = unit_scale(net)
+            um(idx_).sum().backward()
+        if um is None:
+            continue
+        if any(not torch.equal(v, sd0[k]) for k, v in net.state_dict().items()) or not torch.equal(net(idx_).detach(), y0):
+            ctx.violation("C16:original-modified", "unit_scale modified the original module's parameters", key,
+                          {k: float(v.std()) for k, v in net.state_dict().items() if not torch.equal(v, sd0[k])})
+        if {p_.data_ptr() for p_ in net.parameters()} & {p_.data_ptr() for p_ in um.parameters()}:
+            ctx.violation("C16:original-modified", "the returned copy shares parameter storage with the original", key)
+        for name, sub in um.named_modules():
+            if isinstance(sub, (nn.Linear, nn.Embedding)):
+                if abs(float(sub.weight.detach().std()) - 1.0) > 1e-4:
+                    ctx.violation("C16:reinit-weight", "Linear/Embedding weight of the returned copy is not unit variance", key,
+                                  float(sub.weight.detach().std()))
+                if getattr(sub, "bias", None) is not None and float(sub.bias.detach().abs().max()) != 0.0:
+                    ctx.violation("C16:reinit-bias", "bias of the returned copy is not zero", key)
+
     n_dyn = 16 if quick else 300
     for i in range(n_dyn):
         prog = gen(1000 + i)
